@@ -14,6 +14,10 @@ CLAIMED = {
          'Round-trip, depth-first placeholder numbering, header adjacency, hand-back and spec-codec theorems are proved in Lean for all '
          'packets; the model is tied to packet.py on every run by running encode/decode of both on generated, mutated and random frames.',
          TB + 'json.dumps/loads as compared with the Lean printer/reader; isdigit()/int() table for non-ASCII digits.', '§5 C01'),
+ 'C02': ('proof', 'Lean 4 composition theorems (send/receive/handlerArgs/callResult) on top of the C01 round trip; real Client<->Server and AsyncClient<->AsyncServer in memory over 8 configurations',
+         'event_e2e / ack_e2e / order / msgpack theorems for every event name, payload, namespace and id; bursts of emit/send/call in both '
+         'directions on the real pairs x {default, msgpack} x {raw, base64 framing}, judged by an oracle and by the model.',
+         TB + 'msgpack (C extension) round trip as a hypothesis exercised on every frame; protocol-reserved key "_placeholder" is outside the domain (inherited from C01, witness proved and executed).', '§5 C02'),
  'C03': ('proof', 'Lean 4 refinement + invariant theorems over a relation model of the rooms; correspondence with Manager/AsyncManager inside real servers',
          'Exact-recipient-set, no-duplicate, refinement-to-spec and after-leave theorems hold for every finite history; histories are run '
          'on real Server+Manager and AsyncServer+AsyncManager, on the model and on a dict-of-sets oracle.',
@@ -42,6 +46,10 @@ CLAIMED = {
          'The precedence table is a theorem for every registry; reserved-event lists are regenerated from the source on every run; all '
          '2^6 x variants configurations are executed on Server/AsyncServer/Client/AsyncClient.',
          TB + 'the ast translator of reserved_events (validated dynamically).', '§5 C13'),
+ 'C14': ('translation_validation', 'double correspondence: the same scenarios on the threaded class, the asyncio class and one Lean model, plus direct trace diff; Lean theorems over the regenerated helper tables and reserved lists',
+         'Parity is the statement that both families refine the same deterministic model; every scenario is run on Server, AsyncServer and '
+         'the model and the two implementation traces are diffed; forwarding tables / reserved lists of the two families are proved equal.',
+         'Trusted: the scenario generators bound what is seen; handlers inline or background handlers joined; Lean kernel for the table theorems.', '§5 C14'),
  'C16': ('proof', 'Lean 4 theorems over the session part of the server-core model; correspondence with Server/AsyncServer',
          'read-your-write, privacy across clients and namespaces, context manager = get;set;save as theorems; fresh-session clause is '
          'false on the unchanged tree (known finding, negation witness proved) and proved under the explicit hypothesis.',
